@@ -172,7 +172,7 @@ func New(sc *Scenario, k *kernel.Kernel) (*World, error) {
 		case "cmd":
 			st.Path = filepath.Join(dir, "files", s.ID+".temp")
 			st.Exe = filepath.Join(dir, "scripts", s.ID+"_get.sh")
-			writeScript(st.Exe, "#!/bin/sh\ncat "+st.Path+"\n")
+			writeScript(st.Exe, "#!/bin/sh\necho . >> "+st.Exe+".marker\ncat "+st.Path+"\n")
 			w.exes[st.Exe] = &Target{Kind: "sensor", ID: s.ID, Role: "cmd", Name: "sensor:" + s.ID}
 		default:
 			return nil, fmt.Errorf("sensor kind %q", s.Kind)
@@ -204,13 +204,13 @@ func New(sc *Scenario, k *kernel.Kernel) (*World, error) {
 			if f.Kind == "cmd" {
 				st.GetPwmExe = filepath.Join(dir, "scripts", f.ID+"_getpwm.sh")
 				st.SetPwmExe = filepath.Join(dir, "scripts", f.ID+"_setpwm.sh")
-				writeScript(st.GetPwmExe, "#!/bin/sh\ncat "+st.PwmPath+"\n")
-				writeScript(st.SetPwmExe, "#!/bin/sh\nprintf '%s' \"$1\" > "+st.PwmPath+"\n")
+				writeScript(st.GetPwmExe, "#!/bin/sh\necho . >> "+st.GetPwmExe+".marker\ncat "+st.PwmPath+"\n")
+				writeScript(st.SetPwmExe, "#!/bin/sh\necho . >> "+st.SetPwmExe+".marker\nprintf '%s' \"$1\" > "+st.PwmPath+"\n")
 				w.exes[st.GetPwmExe] = &Target{Kind: "fan", ID: f.ID, Role: "getpwm", Name: "fan:" + f.ID + ":pwm"}
 				w.exes[st.SetPwmExe] = &Target{Kind: "fan", ID: f.ID, Role: "setpwm", Name: "fan:" + f.ID + ":pwm"}
 				if !f.Plant.NoRpm {
 					st.GetRpmExe = filepath.Join(dir, "scripts", f.ID+"_getrpm.sh")
-					writeScript(st.GetRpmExe, "#!/bin/sh\ncat "+st.RpmPath+"\n")
+					writeScript(st.GetRpmExe, "#!/bin/sh\necho . >> "+st.GetRpmExe+".marker\ncat "+st.RpmPath+"\n")
 					w.exes[st.GetRpmExe] = &Target{Kind: "fan", ID: f.ID, Role: "getrpm", Name: "fan:" + f.ID + ":rpm"}
 				}
 			}
